@@ -261,17 +261,21 @@ def write_replay(prop, ob, mod, eng):
     rp = {"property": prop, "obligation": ob.name, "status": ob.status, "backend": ob.backend,
           "solver_output": (ob.model or getattr(ob, "why", "") or "")[:20000], "confirmed": False, "path": path}
     mk = getattr(mod, "make_replay", None)
-    if mk is not None and ob.status == "refuted":
+    if mk is not None and (ob.status == "refuted" or getattr(mod, "REPLAY_UNDISCHARGED", False)):
         try:
             extra = mk(ob, eng)
             if extra:
                 rp.update(extra)
                 with open(path, "w") as f:
                     json.dump(rp, f, indent=1)
-                r = subprocess.run([VENV_PY, os.path.join(ROOT, "rt", "replay.py"), path], capture_output=True, text=True,
-                                   cwd=ROOT, timeout=300, env={**os.environ, "PYTHONPATH": os.path.join(extract.REPO, "src")})
-                rp["replay_output"] = (r.stdout + r.stderr)[-4000:]
-                rp["confirmed"] = r.returncode == 1
+                # identical replays (several obligations of one function share a directed search) run once
+                cache = eng.__dict__.setdefault("_replay_cache", {})
+                key = json.dumps(extra, sort_keys=True, default=str)
+                if key not in cache:
+                    r = subprocess.run([VENV_PY, os.path.join(ROOT, "rt", "replay.py"), path], capture_output=True, text=True,
+                                       cwd=ROOT, timeout=900, env={**os.environ, "PYTHONPATH": os.path.join(extract.REPO, "src")})
+                    cache[key] = ((r.stdout + r.stderr)[-4000:], r.returncode == 1)
+                rp["replay_output"], rp["confirmed"] = cache[key]
         except Exception as e:
             rp["replay_error"] = repr(e)
     with open(path, "w") as f:
